@@ -175,8 +175,8 @@ def bddStep (b : BddSt) (l : String) (ws : List String) : Option (List String ×
     some ([l, "~ " ++ joinWith "|" ((TT.classes b.tts.toList).map (showNats ","))], b)
   | "memocheck" :: t :: rest =>
     match parseTable t with
-    | some ns => some ([l, s!"~ {memoCheck b.nv b.exception ns rest}"], b)
-    | none => some ([l, "~ bad-request"], b)
+    | some ns => some ([l, s!"= audit {memoCheck b.nv b.exception ns rest}"], b)
+    | none => some ([l, "= bad-request"], b)
   | _ => none
 
 end Drv
